@@ -261,43 +261,58 @@ func cmdCheck(args []string) int {
 		quickSec, fullSec, all = 60, 60, true
 	}
 	solveAll(results, work, quickSec, fullSec, all, 10, nil)
-	// failed supporting obligations: re-solve the selected obligations that assumed them, without their facts
+	// failed supporting obligations: re-solve the obligations that assumed them, without their facts. Supporting obligations
+	// after a failed one are re-solved too (one of them may have been proved only from the failed one's fact and would
+	// otherwise hand the same fact on to the selected obligations), until no further supporting obligation fails.
 	nSupport, nSupportFailed, nResolved := 0, 0, 0
 	for _, r := range results {
 		excl := map[int]bool{}
 		var firstFailed *Obl
-		var redo []*Obl
 		for _, o := range r.Obls {
 			if o.Support {
 				nSupport++
-				if o.Result != "unsat" {
-					nSupportFailed++
+			}
+		}
+		redone := map[*Obl]int{} // size of the exclusion set the obligation was last solved with
+		for round := 0; round < 50; round++ {
+			nExcl := len(excl)
+			firstIdx := -1
+			for i, o := range r.Obls {
+				if o.Support && o.Result != "unsat" && !excl[o.FactIdx] {
 					excl[o.FactIdx] = true
-					if firstFailed == nil {
-						firstFailed = o
-					}
+					nSupportFailed++
 				}
-				continue
+				if o.Support && o.Result != "unsat" && firstIdx < 0 {
+					firstIdx = i
+					firstFailed = o
+				}
 			}
-			if firstFailed != nil && o.Result == "unsat" {
-				redo = append(redo, o)
+			if firstIdx < 0 || (round > 0 && len(excl) == nExcl) {
+				break
 			}
-		}
-		if len(redo) == 0 {
-			continue
-		}
-		for _, o := range redo {
-			o.Excl = excl
-			o.Result = ""
-		}
-		nResolved += len(redo)
-		saved := r.Obls
-		r.Obls = redo
-		solveAll([]*FuncResult{r}, work, quickSec, fullSec, all, 10, nil)
-		r.Obls = saved
-		for _, o := range redo {
-			if o.Result != "unsat" {
-				o.DependsOn = firstFailed.Name
+			var redo []*Obl
+			for _, o := range r.Obls[firstIdx+1:] {
+				if o.Result == "unsat" && redone[o] < len(excl) {
+					redo = append(redo, o)
+				}
+			}
+			if len(redo) == 0 {
+				break
+			}
+			for _, o := range redo {
+				o.Excl = excl
+				o.Result = ""
+				redone[o] = len(excl)
+			}
+			nResolved += len(redo)
+			saved := r.Obls
+			r.Obls = redo
+			solveAll([]*FuncResult{r}, work, quickSec, fullSec, all, 10, nil)
+			r.Obls = saved
+			for _, o := range redo {
+				if o.Result != "unsat" && !o.Support {
+					o.DependsOn = firstFailed.Name
+				}
 			}
 		}
 	}
